@@ -53,6 +53,36 @@ class TermEncoder:
         self.prefixes = LookupEncoder(lookup_size=lookup_preset.max_prefixes)
         self.datatypes = LookupEncoder(lookup_size=lookup_preset.max_datatypes)
 
+    def new_row(self) -> None:
+        """Start encoding a new statement, graph start or namespace declaration."""
+        self.names.pinned.clear()
+        self.prefixes.pinned.clear()
+        self.datatypes.pinned.clear()
+
+    def pin(self, encoder: LookupEncoder, key: str) -> None:
+        """
+        Keep the entry of `key` alive until the current row is complete.
+
+        Raises:
+            JellyConformanceError: if the row needs more distinct entries
+                than the lookup can hold at once (the entry that would be
+                evicted for `key` is still referenced by this row).
+
+        """
+        lookup = encoder.lookup
+        pinned = encoder.pinned
+        if (
+            key not in lookup.data
+            and len(lookup.data) >= lookup.max_size
+            and next(iter(lookup.data)) in pinned
+        ):
+            msg = (
+                f"a single statement needs more than {lookup.max_size} distinct "
+                "entries of one lookup, which cannot be encoded; use a larger lookup"
+            )
+            raise JellyConformanceError(msg)
+        pinned.add(key)
+
     def encode_iri_indices(self, iri_string: str) -> tuple[Rows, int, int]:
         """
         Encode lookup indices for IRI.
@@ -67,11 +97,13 @@ class TermEncoder:
         """
         prefix, name = split_iri(iri_string)
         if self.prefixes.lookup.max_size:
+            self.pin(self.prefixes, prefix)
             prefix_entry_index = self.prefixes.encode_entry_index(prefix)
         else:
             name = iri_string
             prefix_entry_index = None
 
+        self.pin(self.names, name)
         name_entry_index = self.names.encode_entry_index(name)
         term_rows = []
 
@@ -152,6 +184,7 @@ class TermEncoder:
                     "(its size was set to 0)"
                 )
                 raise JellyConformanceError(msg)
+            self.pin(self.datatypes, datatype)
             datatype_entry_id = self.datatypes.encode_entry_index(datatype)
 
             if datatype_entry_id is not None:
@@ -304,6 +337,7 @@ def encode_triple(
     """
     triple = jelly.RdfTriple()
     terms = iter(terms)
+    term_encoder.new_row()
     rows = encode_spo(terms, term_encoder, repeated_terms, triple)
     row = jelly.RdfStreamRow(triple=triple)
     rows.append(row)
@@ -329,6 +363,7 @@ def encode_quad(
     """
     terms = iter(terms)
     quad = jelly.RdfQuad()
+    term_encoder.new_row()
     rows = encode_spo(terms, term_encoder, repeated_terms, quad)
     g = next(terms)
     if repeated_terms[Slot.graph] != g:
@@ -358,6 +393,7 @@ def encode_namespace_declaration(
 
     """
     iri = jelly.RdfIri()
+    term_encoder.new_row()
     [*rows] = term_encoder.encode_iri(value, iri=iri)
     declaration = jelly.RdfNamespaceDeclaration(name=name, value=iri)
     row = jelly.RdfStreamRow(namespace=declaration)
